@@ -82,6 +82,7 @@ func init() {
 	Properties["C01"] = &PropertySpec{
 		Modules: bt,
 		Rules: []Rule{
+			R45(),
 			R06(),
 			R08(Only8("applyMutations")),
 			R28(),
@@ -96,6 +97,7 @@ func init() {
 	Properties["C02"] = &PropertySpec{
 		Modules: st,
 		Rules: []Rule{
+			Only(R22(), `filestore\.Add/content`),
 			Only(R11(), fns("(*GcsEmu).finishUpload")),
 			R08(Only8("finishUpload")),
 			R34(),
@@ -244,6 +246,7 @@ func init() {
 	Properties["C13"] = &PropertySpec{
 		Modules: bt,
 		Rules: []Rule{
+			R45(),
 			R08(Only8("ReadModifyWriteRow")),
 			Only(R07(), fns(rpcRMW)),
 			Only(R02R03(), fns(rpcRMW)),
@@ -284,7 +287,7 @@ func init() {
 			Only(R16(3, core.PkgGcsemu, core.PkgGcsutil), fns(composeCopyFns...)),
 			Only(R15(), `handleGcsCompose`, `handleGcsCopy`),
 			Only(R22(), `Copy`),
-			Only(R10(), `Copy`, `compose`),
+			Only(R10(), `Copy`, `compose`, `decode-target`),
 			Only(R33(), fns("(*GcsEmu).finishCompose")),
 			Only(R41(), fns("(*GcsEmu).handleGcsCopy", "(*GcsEmu).handleGcsCompose")),
 			R42(),
@@ -296,6 +299,8 @@ func init() {
 	Properties["C16"] = &PropertySpec{
 		Modules: bt,
 		Rules: []Rule{
+			R47(),
+			R45(),
 			Only(R02R03(), fns(gcFns...)),
 			Only(R13(2, core.PkgBttest), fns("applyGC")),
 			Only(R01(nil), fns(gcFns...)),
@@ -309,6 +314,7 @@ func init() {
 	Properties["C17"] = &PropertySpec{
 		Modules: bt,
 		Rules: []Rule{
+			Only(R08(Only8("ReadRows")), `-shape`, `-slot`),
 			R43(),
 			R09(),
 			R31(),
